@@ -28,6 +28,7 @@ func checkC17(c *Ctx) {
 	c.Rule("C17/R6", "quartile interpolation (R8): with k the integer part of 1/3 + p(N+1/3), Percentile returns x[0] for k <= 0, x[N-1] for k >= N and x[k-1] + frac (x[k] - x[k-1]) otherwise — evaluated for N = 5 and every k from -1 to 6 by answering the clamp conditions from (k, N)")
 	c.Rule("C17/R9", "retained values stay in input order (same rule as C12/R8): the quartile computation sorts a copy, never the measurements it was handed")
 	c.Rule("C17/R8", "the delta tests see the retained values only: nothing on the way from TTest/UTest (including methods of adapter types they hand to the statistics package) reads Metrics.Values")
+	c.Rule("C17/R10", "the geomean row's delta follows the same formula as a benchmark row's: (second geomean / first geomean - 1)*100, printed with %+.2f%%")
 	c.Rule("C17/R7", "the geometric mean behind the geomean row accumulates in the log domain (same rule as C12/R7): no running product of raw means")
 	p := mustLoad(c, loadOpts{}, "./benchstat", "./internal/stats", "./storage/benchfmt")
 	c17Sort(c, p)
@@ -40,6 +41,97 @@ func checkC17(c *Ctx) {
 	c17ByDelta(c, p)
 	c17Retained(c, p)
 	c12NoReorder(c, p, "C17/R9")
+	c17GeomeanDelta(c, p)
+}
+
+// c17GeomeanDelta (C17/R10): the geomean row's delta is the same percentage as a benchmark row's, taken between the
+// two geometric means: wherever the row's PctDelta is stored, its value is (g[1]/g[0] - 1)*100 with g[k] the k-th
+// collected geomean, and Delta is that value under %+.2f%%. Decides the formula, not which configuration g[k] is.
+func c17GeomeanDelta(c *Ctx, p *Prog) {
+	const R = "C17/R10"
+	pctF := p.Field("benchstat", "Row", "PctDelta")
+	var fn *ssa.Function
+	for _, f := range p.Funcs("benchstat") {
+		if len(callsIn(f, istatsPkg, "", "GeoMean")) > 0 && pctF != nil && len(storesToField(f, pctF)) > 0 {
+			fn = f
+		}
+	}
+	if fn == nil {
+		c.Undecided(R, "anchor:geomean row", "", "no function that takes geometric means and stores a row's PctDelta")
+		return
+	}
+	site := p.pos(fn.Pos())
+	mk := func() *e6Interp {
+		return &e6Interp{PureCall: func(f *types.Func) bool { return true },
+			Inline: func(f *ssa.Function) bool {
+				if f.Pkg != fn.Pkg || f == fn || f.Parent() != nil || f.Signature.Recv() != nil || len(naturalLoops(f)) > 0 || len(f.Blocks) > 8 {
+					return false
+				}
+				sig := f.Signature
+				if sig.Results().Len() != 1 || !isFloat(sig.Results().At(0).Type()) || sig.Params().Len() == 0 {
+					return false
+				}
+				for i := 0; i < sig.Params().Len(); i++ {
+					if !isFloat(sig.Params().At(i).Type()) {
+						return false
+					}
+				}
+				return true
+			}}
+	}
+	outs, why := regionOutcomes(fn, mk, 512)
+	if why != "" {
+		c.Undecided(R, "geomean-row:table", site, why)
+		return
+	}
+	leaf := func(s *Sym) string {
+		if s.Op == "load" && len(s.Args) == 1 && s.Args[0].Op == "indexaddr" && len(s.Args[0].Args) == 2 && s.Args[0].Args[1].isConst() && isFloat2(s.Type) {
+			return "g" + s.Args[0].Args[1].String()
+		}
+		return ""
+	}
+	ref := func(g func(string) *big.Rat) *big.Rat {
+		return rMul(rSub(rQuo(g("g1"), g("g0")), rat(1, 1)), rat(100, 1))
+	}
+	pts := []map[string]*big.Rat{{"g0": rat(7, 3), "g1": rat(5, 2)}, {"g0": rat(11, 1), "g1": rat(4, 1)}}
+	n := 0
+	seen := map[string]bool{}
+	for _, o := range outs {
+		var pct, delta *Sym
+		for _, k := range sortedKeys(o.Mem) {
+			if !strings.HasPrefix(k, "&") || strings.Contains(k, "Metrics") {
+				continue
+			}
+			switch {
+			case strings.HasSuffix(k, ".PctDelta"):
+				pct = o.Mem[k]
+			case strings.HasSuffix(k, ".Delta"):
+				delta = o.Mem[k]
+			}
+		}
+		if pct == nil {
+			continue
+		}
+		if seen[pct.String()] {
+			continue
+		}
+		seen[pct.String()] = true
+		n++
+		key := fmt.Sprintf("geomean-row:delta#%d", n)
+		ok, detail := e7Equal(pct, ref, pts, leaf)
+		if ok {
+			ok, detail = false, "the row's Delta text is not the percentage under %+.2f%%"
+			if delta != nil && delta.Op == "call" && strings.HasPrefix(delta.Name, "fmt.Sprintf") {
+				fs, _ := constString2(delta.Args[0])
+				args := o.VarArgs(e6Action{Args: delta.Args})
+				if fs == "%+.2f%%" && len(args) == 1 {
+					ok, detail = e7Equal(args[0], ref, pts, leaf)
+				}
+			}
+		}
+		c.Check(ok, R, key, site, "the geomean row's delta is (second geomean / first geomean - 1)*100 under %+.2f%%", "geomean row: "+detail+"; documented (new/old - 1)*100 between the two geometric means")
+	}
+	c.Floor(R, "stores of the geomean row's delta", n, 1)
 }
 
 func c17Sort(c *Ctx, p *Prog) {
@@ -463,7 +555,23 @@ func c17Rows(c *Ctx, p *Prog) {
 	mk := func() *e6Interp {
 		return &e6Interp{Init: init, PureCall: func(f *types.Func) bool {
 			return f.Pkg() != nil && (f.Pkg().Path() == "fmt" || f.Pkg().Path() == "math")
-		}}
+		},
+			// arithmetic helpers of the package (floats in, a float out, no loop) are evaluated in place
+			Inline: func(f *ssa.Function) bool {
+				if f.Pkg != fn.Pkg || f == fn || f.Parent() != nil || f.Signature.Recv() != nil || len(naturalLoops(f)) > 0 || len(f.Blocks) > 8 {
+					return false
+				}
+				sig := f.Signature
+				if sig.Results().Len() != 1 || !isFloat(sig.Results().At(0).Type()) || sig.Params().Len() == 0 {
+					return false
+				}
+				for i := 0; i < sig.Params().Len(); i++ {
+					if !isFloat(sig.Params().At(i).Type()) {
+						return false
+					}
+				}
+				return true
+			}}
 	}
 	outs, why := e6Enumerate(mk, start, nil, stop, 4096)
 	if why != "" {
